@@ -453,6 +453,14 @@ func check(c palsCase) *vlib.Failure {
 			if got := hitSet(again); got != forwardHits {
 				return vlib.Failf("saved-trapezoids", "%s: the trapezoids of the forward search, kept across Align(true) and aligned again with AlignFrom, give %s; Align(false) had given %s", desc, clipS(got), clipS(forwardHits))
 			}
+			// the same on the complement strand: its own trapezoids through AlignFrom(..., true)
+			againC, err := p.AlignFrom(p.Trapezoids(), true)
+			if err != nil {
+				return vlib.Failf("align-error", "%s: AlignFrom(trapezoids of Align(true), true): %v", desc, err)
+			}
+			if got, want := hitSet(againC), hitSet(hits); got != want {
+				return vlib.Failf("saved-trapezoids", "%s: the trapezoids of the complement search aligned again with AlignFrom(..., true) give %s; Align(true) had given %s", desc, clipS(got), clipS(want))
+			}
 		}
 		query := b.query
 		if comp {
